@@ -155,7 +155,11 @@ class TreeBuilder(ET.TreeBuilder):
         Iterate through all tags matched by regex.
         """
         logger.info("Building Element tree from markup body")
+        position = 0
         for match in self.regex.finditer(data):
+            # re.finditer() silently skips whatever the regex can't match
+            self._checkgap(data, position, match.start())
+            position = match.end()
             try:
                 groupdict = match.groupdict()
 
@@ -181,6 +185,17 @@ class TreeBuilder(ET.TreeBuilder):
                 msg = err.args[0]
                 msg += " - position=[{}:{}]".format(match.start(), match.end())
                 raise ParseError(msg)
+        self._checkgap(data, position, len(data))
+
+    def _checkgap(self, data: str, start: int, end: int) -> None:
+        """
+        A CDATA section that the regex skipped was never terminated (or doesn't
+        follow a start tag); whatever comes after it isn't markup.
+        """
+        if data.find("<![CDATA[", start, end) != -1:
+            raise ParseError(
+                f"Unterminated or misplaced CDATA section - position=[{start}:{end}]"
+            )
 
     def _feedmatch(
         self, tag: str, text: Optional[str], closetag: Optional[str]
